@@ -871,13 +871,20 @@ LEVEL = "other"
 EXPLANATION = ("Static, decided on values and roles (functions evaluated on symbols, c19_sem.py): psd.area's general formula is the exact integral of the log-log "
                "interpolant (symbolic identity), the special case is its s -> -1 limit and is selected by a narrow window centred on the pole of the general formula, "
                "all segments/columns are accumulated from zero; psd.interp's log/exp pairing; dsp.resample's lag removal / decimation index arithmetic (first kept "
-               "full-rate index = front padding + M/2 for every p/q, whatever the filter routine); psd.rescale's cumulative-curve construction.")
+               "full-rate index = front padding + M/2 for every p/q, whatever the filter routine); psd.rescale's cumulative-curve construction; dsp.fixtime on every path "
+               "through its tail: time = arange(L)/sr + told[0] + scalars, data = olddata[index] with the index expression decided element by element on finite worlds "
+               "(nearest sample, earlier one on a tie / last sample before), no selection without the search unless established by an element-wise test, all definitions "
+               "(numpy / numba) of the search functions agree.")
 MANIFEST = {
     "text": "Thin partial claim decided statically: (R1) psd.area segment formulas (exact integral, limit, selector centred on the singularity, full coverage and "
             "accumulation); (R2) psd.interp log/exp pairing and in-range mask; (R3) dsp.resample keeps full-rate samples (padding + M/2) + q k of the filter output, pads "
             "M/2 both sides, restores the mean, reduces p/q by gcd; (R4) psd.rescale's band mean squares are differences of one cumulative curve tabulated at the input band "
-            "edges, divided by the same band widths, with the outer edges clamped to input band edges and restored. Not decided: resample's interpolation accuracy, "
-            "fixtime's nearest-sample semantics, get_freq_oct band tables (value-level).",
+            "edges, divided by the same band widths, with the outer edges clamped to input band edges and restored; (R5) dsp.fixtime returns arange(L)/sr + told[0] + scalar "
+            "shifts and olddata[index], the index being the nearest (earlier on a tie) / previous old sample on every finite world of 2-4 old times, for every definition of "
+            "the search functions; a selection that bypasses the search must be established by an element-wise comparison of old and new times. R1 also requires the s = -1 "
+            "selector to be invariant under scaling the PSD values. Not decided: resample's interpolation accuracy, fixtime's drop-out / spike / outlier removal and the "
+            "turning-point alignment (only that they move the time base by scalars), get_freq_oct band tables (value-level).",
     "note": "Trusted: CPython ast; verifier/e2_formula.py (exp/log, series); verifier/c19_sem.py (value engine); scipy interp1d / lfilter / upfirdn semantics.",
-    "technique": "evaluation on symbols (functional arrays, index algebra, three-valued tests from facts, generic loop iteration) with exact symbolic integral/limit check",
+    "technique": "evaluation on symbols (functional arrays, index algebra, three-valued tests from facts, generic loop iteration) with exact symbolic integral/limit check; "
+                 "path enumeration over undecided tests; finite-world evaluation of index expressions / loop code by the checker's own evaluator (exact rationals, no repo code run)",
 }
